@@ -137,6 +137,7 @@ type vf struct {
 	rep        *core.Report
 	writeReach map[*ssa.Function]bool
 	readReach  map[*ssa.Function]bool
+	only       func(*ssa.Function) bool // VF2: the caller filter of the current run
 }
 
 func newVF(p *core.Prog, rep *core.Report) *vf {
@@ -392,9 +393,16 @@ func (v *vf) vf2(only func(fn *ssa.Function) bool) {
 	v.rep.Rule("VF2", "file-id dispatch: every positional read (DataFile method reaching ReadWriter.Read that takes a *DataPos) is made on a file selected by pos.Fid: a lookup in the rotated-files map keyed by it, or the active file under an equality test of its id with pos.Fid")
 	n := 0
 	for _, fn := range v.p.LibFuncs() {
-		if !inRootPkg(fn) || (only != nil && !only(fn)) {
+		if !inRootPkg(fn) {
 			continue
 		}
+		if only != nil && !only(fn) {
+			// a receiver-less helper shared by the read paths belongs to whoever calls it
+			if core.RecvNamed(fn) != nil || !v.calledBy(fn, only) {
+				continue
+			}
+		}
+		v.only = only
 		for _, b := range fn.Blocks {
 			for _, in := range b.Instrs {
 				ci, ok := in.(ssa.CallInstruction)
@@ -418,45 +426,7 @@ func (v *vf) vf2(only func(fn *ssa.Function) bool) {
 				}
 				n++
 				recv := ci.Common().Args[0]
-				why := ""
-				for _, o := range core.Origins(recv) {
-					switch t := o.(type) {
-					case *ssa.Lookup:
-						if f, _ := core.LoadedField(t.X); f != R.DBOlder {
-							why = "file looked up in something other than the rotated-files map"
-						} else if f2, pb := core.LoadedField(core.Unwrap(t.Index)); f2 != R.PosFid || !sameOrigin(pb, pos) {
-							why = "rotated-files map is not indexed by this position's file id"
-						} else if iff, eqIdx := v.fidTest(fn, pos); iff != nil {
-							eq := iff.Block().Succs[eqIdx]
-							if t.Block() == eq || (len(eq.Preds) == 1 && eq.Dominates(t.Block())) {
-								why = "the rotated-files map is consulted on the edge where the active file's id EQUALS the position's file id (test flipped): rotated files are never read"
-							}
-						}
-					case *ssa.Extract:
-						if lk, ok := t.Tuple.(*ssa.Lookup); ok {
-							if f, _ := core.LoadedField(lk.X); f != R.DBOlder {
-								why = "file looked up in something other than the rotated-files map"
-							} else if f2, pb := core.LoadedField(core.Unwrap(lk.Index)); f2 != R.PosFid || !sameOrigin(pb, pos) {
-								why = "rotated-files map is not indexed by this position's file id"
-							}
-						} else {
-							why = "unrecognised file selection"
-						}
-					case *ssa.UnOp:
-						if f, _ := core.LoadedField(t); f == R.DBActive {
-							if !v.hasFidTest(fn, pos) {
-								why = "active file used without comparing its id with the position's file id"
-							}
-						} else {
-							why = "unrecognised file selection"
-						}
-					default:
-						why = "unrecognised file selection (" + o.Name() + ")"
-					}
-					if why != "" {
-						break
-					}
-				}
+				why := v.vf2Judge(fn, recv, pos, 0)
 				v.rep.Check(why == "", "VF2", "positional-read:"+core.FuncKey(fn), "the file read is the one the position names", v.p.InstrPos(in), why, true)
 			}
 		}
@@ -464,6 +434,118 @@ func (v *vf) vf2(only func(fn *ssa.Function) bool) {
 	if n == 0 {
 		core.Failf("vacuity guard: VF2 found no positional read")
 	}
+}
+
+// vf2Judge: is recv (the DataFile a positional read is made on, in fn) selected by pos.Fid? "" if so.
+func (v *vf) vf2Judge(fn *ssa.Function, recv, pos ssa.Value, d int) string {
+	R := v.p.R
+	why := ""
+	for _, o := range core.Origins(recv) {
+		switch t := o.(type) {
+		case *ssa.Lookup:
+			if f, _ := core.LoadedField(t.X); f != R.DBOlder {
+				why = "file looked up in something other than the rotated-files map"
+			} else if f2, pb := core.LoadedField(core.Unwrap(t.Index)); f2 != R.PosFid || !sameOrigin(pb, pos) {
+				why = "rotated-files map is not indexed by this position's file id"
+			} else if iff, eqIdx := v.fidTest(fn, pos); iff != nil {
+				eq := iff.Block().Succs[eqIdx]
+				if t.Block() == eq || (len(eq.Preds) == 1 && eq.Dominates(t.Block())) {
+					why = "the rotated-files map is consulted on the edge where the active file's id EQUALS the position's file id (test flipped): rotated files are never read"
+				}
+			}
+		case *ssa.Extract:
+			if lk, ok := t.Tuple.(*ssa.Lookup); ok {
+				if f, _ := core.LoadedField(lk.X); f != R.DBOlder {
+					why = "file looked up in something other than the rotated-files map"
+				} else if f2, pb := core.LoadedField(core.Unwrap(lk.Index)); f2 != R.PosFid || !sameOrigin(pb, pos) {
+					why = "rotated-files map is not indexed by this position's file id"
+				}
+			} else {
+				why = "unrecognised file selection"
+			}
+		case *ssa.UnOp:
+			if f, _ := core.LoadedField(t); f == R.DBActive {
+				if !v.hasFidTest(fn, pos) {
+					why = "active file used without comparing its id with the position's file id"
+				}
+			} else {
+				why = "unrecognised file selection"
+			}
+		case *ssa.Parameter:
+			// the read lives in a helper that is handed the file and the position (`readValueFrom(file, pos)`):
+			// judged at every call site of the helper, with the arguments in place of the parameters
+			why = v.vf2ThroughParam(fn, t, pos, d)
+		default:
+			why = "unrecognised file selection (" + o.Name() + ")"
+		}
+		if why != "" {
+			break
+		}
+	}
+	return why
+}
+
+func (v *vf) vf2ThroughParam(fn *ssa.Function, recvP *ssa.Parameter, pos ssa.Value, d int) string {
+	if d > 2 || token.IsExported(fn.Name()) {
+		return "file handed in as a parameter of " + core.FuncKey(fn) + " (not followed)"
+	}
+	ri, pi := -1, -1
+	for i, p := range fn.Params {
+		if p == recvP {
+			ri = i
+		}
+		for _, o := range core.Origins(pos) {
+			if o == ssa.Value(p) {
+				pi = i
+			}
+		}
+	}
+	if ri < 0 || pi < 0 {
+		return "file is a parameter of " + core.FuncKey(fn) + " but the position is not"
+	}
+	sites := 0
+	for _, caller := range v.p.LibFuncs() {
+		for _, b := range caller.Blocks {
+			for _, in := range b.Instrs {
+				ci, ok := in.(ssa.CallInstruction)
+				if !ok || ci.Common().StaticCallee() != fn {
+					continue
+				}
+				if v.only != nil && !v.only(caller) && !(core.RecvNamed(caller) == nil && v.calledBy(caller, v.only)) {
+					continue
+				}
+				args := ci.Common().Args
+				if ri >= len(args) || pi >= len(args) {
+					continue
+				}
+				sites++
+				if w := v.vf2Judge(caller, args[ri], args[pi], d+1); w != "" {
+					return w + " (at the call of " + fn.Name() + " in " + core.FuncKey(caller) + ", " + v.p.InstrPos(in) + ")"
+				}
+			}
+		}
+	}
+	if sites == 0 {
+		return "no call site of " + core.FuncKey(fn) + " found"
+	}
+	return ""
+}
+
+// calledBy: some function satisfying pred calls fn statically.
+func (v *vf) calledBy(fn *ssa.Function, pred func(*ssa.Function) bool) bool {
+	for _, caller := range v.p.LibFuncs() {
+		if !pred(caller) {
+			continue
+		}
+		for _, b := range caller.Blocks {
+			for _, in := range b.Instrs {
+				if ci, ok := in.(ssa.CallInstruction); ok && ci.Common().StaticCallee() == fn {
+					return true
+				}
+			}
+		}
+	}
+	return false
 }
 
 // hasFidTest: fn compares (active file).ID with pos.Fid.
@@ -507,7 +589,6 @@ func (v *vf) hasFidTest(fn *ssa.Function, pos ssa.Value) bool {
 	}
 	return false
 }
-
 
 // fidTest: the live comparison of the active file's id with pos.Fid in fn: the If and the successor index on which
 // the ids are EQUAL.
@@ -678,14 +759,21 @@ func (v *vf) vf3Replay() {
 		core.Failf("role unresolved: replay function (NextLogRecord + pending-transaction map)")
 	}
 	// index-update sites in replay: direct ShardedIndex.Put/Delete calls or calls of closures that do them
-	isUpdater := func(f *ssa.Function) bool {
-		if f == nil {
+	// (a closure of the replay function or an unexported function / method of the package - the closure is often turned
+	// into a method; followed through unexported helpers, three levels)
+	var isUpdaterD func(f *ssa.Function, d int) bool
+	isUpdaterD = func(f *ssa.Function, d int) bool {
+		if f == nil || d > 3 {
 			return false
 		}
 		for _, b := range f.Blocks {
 			for _, in := range b.Instrs {
 				if ci, ok := in.(ssa.CallInstruction); ok {
-					if c := ci.Common().StaticCallee(); c != nil && core.RecvNamed(c) == R.ShardedIndex && (c.Name() == "Put" || c.Name() == "Delete") {
+					c := ci.Common().StaticCallee()
+					if c != nil && core.RecvNamed(c) == R.ShardedIndex && (c.Name() == "Put" || c.Name() == "Delete") {
+						return true
+					}
+					if c != nil && c != f && inRootPkg(c) && !token.IsExported(c.Name()) && isUpdaterD(c, d+1) {
 						return true
 					}
 				}
@@ -693,6 +781,7 @@ func (v *vf) vf3Replay() {
 		}
 		return false
 	}
+	isUpdater := func(f *ssa.Function) bool { return isUpdaterD(f, 0) }
 	n := 0
 	for _, b := range replay.Blocks {
 		for _, in := range b.Instrs {
@@ -702,7 +791,7 @@ func (v *vf) vf3Replay() {
 			}
 			c := ci.Common().StaticCallee()
 			direct := c != nil && core.RecvNamed(c) == R.ShardedIndex && (c.Name() == "Put" || c.Name() == "Delete")
-			if !direct && !(c != nil && c.Parent() == replay && isUpdater(c)) {
+			if !direct && !(c != nil && (c.Parent() == replay || (inRootPkg(c) && !token.IsExported(c.Name()))) && isUpdater(c)) {
 				continue
 			}
 			n++
@@ -757,11 +846,11 @@ func (v *vf) vf3Replay() {
 						continue
 					}
 					bo, isBo := iff.Cond.(*ssa.BinOp)
-					if !isBo || bo.Op != token.EQL {
+					if !isBo || (bo.Op != token.EQL && bo.Op != token.NEQ) {
 						continue
 					}
 					if f, _ := core.LoadedField(core.Unwrap(bo.X)); f == R.LRType {
-						if cst, isC := bo.Y.(*ssa.Const); isC && cst.Value != nil && constant.Compare(cst.Value, token.EQL, fin) && edgeDominates(iff, true, b) {
+						if cst, isC := bo.Y.(*ssa.Const); isC && cst.Value != nil && constant.Compare(cst.Value, token.EQL, fin) && edgeDominates(iff, bo.Op == token.EQL, b) {
 							nDel++
 						}
 					}
